@@ -44,12 +44,11 @@ def cmp : Handler := fun args => do
   .ok (listReply ((compareDocs keep i o).map strBytes))
 
 /-- `spec.c09.xml.contract tokens` (tokens of the REAL lexer) → which parts of the hypotheses of the C09 theorems
-fail for them: `lexok` (lexer contract), `wf` (Boolean token well-formedness), `hazard` (trigger K-C09-Xml-1) -/
+fail for them: `lexok` (lexer contract), `wf` (Boolean token well-formedness) -/
 def contract : Handler := fun args => do
   let ts ← Verif.Driver.C06.argToks args 0
   let r := (if lexOk .content ts then [] else ["lexok"]) ++
-    (if Spec.Xml.wfToks ts then [] else ["wf"]) ++
-    (if piEndHazard false ts then ["hazard"] else [])
+    (if Spec.Xml.wfToks ts then [] else ["wf"])
   .ok (listReply (r.map strBytes))
 
 def normAttrWs : XTok → XTok
@@ -102,9 +101,33 @@ def svgattr : Handler := fun args => do
   let b ← argChars args 0
   .ok (charsToBytes (Model.C09SvgText.svgAttrWrite (Model.C09SvgText.svgAttrPre b)))
 
+/-- `model.c09.xml.svgstyletext n data m` → bytes written by the `TextToken` branch inside `style` when the sub-minifier
+returns `m` for the data it is given -/
+def svgstyletext : Handler := fun args => do
+  let n ← argNat args 0
+  let d ← argChars args 1
+  let m ← argChars args 2
+  .ok (charsToBytes (Model.C09SvgText.svgText true (fun _ => some m) n d))
+
+/-- `model.c09.xml.svgstylecdata n data text m` → bytes written by the `CDATAToken` branch inside `style` -/
+def svgstylecdata : Handler := fun args => do
+  let n ← argNat args 0
+  let d ← argChars args 1
+  let t ← argChars args 2
+  let m ← argChars args 3
+  .ok (charsToBytes (Model.C09SvgText.svgCData true (fun _ => some m) n d t))
+
+/-- `model.c09.xml.svgstyleattr body m` → bytes written for a quoted `style` attribute value -/
+def svgstyleattr : Handler := fun args => do
+  let b ← argChars args 0
+  let m ← argChars args 1
+  .ok (charsToBytes (Model.C09SvgText.svgStyleAttr (fun _ => some m) b))
+
 def handlers : List (String × Handler) :=
   [("spec.c09.xml.tokens", tokens), ("spec.c09.xml.cmp", cmp), ("spec.c09.xml.contract", contract),
    ("spec.c09.xml.agree", agree), ("model.c09.xml.svgtext", svgtext), ("model.c09.xml.svgcdata", svgcdata),
-   ("model.c09.xml.svgattr", svgattr), ("model.c09.xml.pass", pass)]
+   ("model.c09.xml.svgattr", svgattr), ("model.c09.xml.pass", pass),
+   ("model.c09.xml.svgstyletext", svgstyletext), ("model.c09.xml.svgstylecdata", svgstylecdata),
+   ("model.c09.xml.svgstyleattr", svgstyleattr)]
 
 end Verif.Driver.C09Xml
